@@ -20,7 +20,7 @@ import jax.numpy as jnp
 
 from ..core import obligation
 from ..jxh import Case
-from ..sym import Le, Lt, Eq, Holds, v_abs, v_lt, v_le, v_and, v_sub, v_add, v_mul, v_sum, flat
+from ..sym import Le, Lt, Eq, v_abs, v_lt, v_le, v_sub, v_add, v_mul, v_sum, flat, sym_array, toz
 
 P = 'C03'
 EPS = 2.0 ** -52
@@ -28,6 +28,7 @@ ULPS = 64.0                      # G tolerance: 64 ulp * cond
 BOX = 4.0                        # vertex coordinates in [-BOX, BOX]
 DET_MIN = 0.02                   # det J = 2 * signed area >= 2/100
 TWO_PI = 2 * math.pi             # the binary64 constant the code multiplies with (2*np.pi is exact doubling of np.pi)
+SYM_ULPS = 16.0                  # cyclic symmetry of the decimal triangle tables (QuadratureRule docstring), absolute ulps of 1
 TOL_W = ULPS * EPS               # |sum of weights - exact| <= TOL_W (established by G, re-proved where used)
 TOL_X = 8 * ULPS * EPS * BOX     # affine image of a quadrature point: <= 5 nodal defects of 64 ulp times |v| <= BOX
 SC = 1e-3                        # replay/margin scale of the tolerance atoms (replay tolerance 1e-12)
@@ -43,6 +44,25 @@ OUTSIDE = ('rounding error of evaluating the formulas in binary64 (values are re
            'their binary64 values)',
            'curved (non-affine) higher-order elements: the code itself builds J from the three vertex nodes only',
            'meshes with inverted or degenerate elements (signed area < 1/100 at box scale 4)')
+
+
+# Note on the linear goals (A4 points, elevated nodes, reference gradient of the coordinate map, edge quadrature points): z3 answers `unknown` as soon as
+# an irrelevant non-linear literal (det J >= 1/50, or the side conditions of a linear solve) is present, so these goals are proved for EVERY triangle of the
+# box (no area hypothesis, which is the stronger statement) from cases that do not build shape gradients.
+DESIGNED_NOT_REGISTERED = [
+    ('monolithic gradient reproduction |sum_a u_a (x) grad N_a - grad u| <= tol on a symbolic triangle (real tables, relational solve)',
+     'unknown at 120 s in both back ends already for P1 (design probe); replaced by the exact chain G J = sum_a u_a (x) dN_a for ALL dN and ALL nodal fields '
+     '(O6 A4grad, O8 FS2grad) + the linear fact |sum_a x_a (x) dN_a - J| <= tol (O6) + the ground reproduction facts (O1)'),
+    ('divergence theorem for LINEAR fields through FunctionSpace.integrate_function_on_edges with a tolerance (|flux - tr(A) area| <= tol, A, b, vertices symbolic)',
+     'unknown at 120 s (core and nlsat, 12 reals + 3 sqrt); by DESIGN it reduces to the 1-D ground moments (O2/O3) + the exact edge identities of O7 '
+     '(integral of n = W * normal*jac, flux of a constant = K * c.normal*jac, closed-boundary flux of a constant = 0, edge points affine)'),
+    ('Surface.integrate_function_on_surface: closed-boundary flux of a constant field = 0 as ONE query',
+     'unknown at 60 s (six sqrt terms: Surface normalises the normal and the jacobian separately); registered instead as a cut-lemma chain: total = sum of the '
+     'three edge integrals, each edge integral = W c.(T_y,-T_x) (both on the code\'s terms), last link over fresh reals (O9)'),
+    ('mesh integral of x*y against the closed form with a tolerance (degree-4 inequality in 8 reals)',
+     'unknown at 60 s; registered as the exact identity integral = sum_e det J_e x^T M y with the exact mass matrix M of the real tables, and the ground fact '
+     '|M_ab - (1+delta_ab)/24| <= 64 ulp (O8)'),
+]
 
 
 def _mods():
@@ -219,7 +239,8 @@ def o2(h):
 @obligation(P, 'O3.G_quadrature_moments', cap=200)
 def o3(h):
     """G: moment exactness of the real rules: triangle sum_q w_q xi^i eta^j = i! j!/(i+j+2)! for i+j <= degree (1..10),
-    1-D sum_q w_q x^i = 1/(i+1), i <= degree (0..25); positive weights, points inside the reference domain"""
+    1-D sum_q w_q x^i = 1/(i+1), i <= degree (0..25); positive weights, points inside the reference domain, documented
+    cyclic symmetry of the triangle tables"""
     FS, I, QR, M, S = _mods()
     h.encoded(QR.create_quadrature_rule_on_triangle, QR.create_quadrature_rule_1D)
     h.bounds('triangle rules requested with degree 0..10, 1-D rules degree 0..25; tolerance %g ulp of sum_q |w_q| (1/2 resp. 1)' % ULPS)
@@ -242,6 +263,14 @@ def o3(h):
                     worst, at = e, (i, j)
         ground(h, 'triangle_moments[degree%d]' % d, worst <= ULPS, '%d points, worst moment defect %.3g ulp at monomial %s (allowed %g)' % (len(w), worst, at, ULPS),
                dict(degree=d, defect_ulps=worst, monomial=at))
+        # documented contract of the tables: cyclic symmetry in triangular coordinates (xi,eta,zeta) -> (eta,zeta,xi), weights equal on
+        # an orbit; the tables are decimal to 15-18 digits, so up to SYM_ULPS ulp. A single corrupted digit of one entry breaks it.
+        sym = Fr(0)
+        for q in range(len(w)):
+            img = (xi[q][1], 1 - xi[q][0] - xi[q][1])
+            sym = max(sym, min(max(abs(img[0] - xi[p][0]), abs(img[1] - xi[p][1]), abs(w[p] - w[q])) for p in range(len(w))))
+        ground(h, 'triangle_rule_cyclically_symmetric[degree%d]' % d, sym <= SYM_ULPS * eps, 'worst orbit defect %.3g ulp (allowed %g)' % (float(sym / eps), SYM_ULPS),
+               dict(degree=d, defect_ulps=float(sym / eps)))
         inside = all(v > 0 for v in w) and all(p[0] >= 0 and p[1] >= 0 and p[0] + p[1] <= 1 for p in xi)
         ground(h, 'triangle_rule_valid[degree%d]' % d, inside and len(xi) == len(w), 'weights positive, points in the reference triangle', dict(degree=d))
     for d in range(0, 26):
@@ -439,7 +468,7 @@ def o5(h):
                     lhs.append(v_sub(o[q], v_mul(F(TWO_PI) * F(wq[q]), v_mul(r, det))))
                     tol.append(v_mul(F(TWO_PI) * F(wq[q]) * F(TOL_X), det))
                 return box(X) + [v_le(DET_MIN, det)], [Le([v_abs(x) for x in lhs], tol, name='vols_eq_2pi_r(xi_q)_detJ_w', scale=SC)]
-            c.prove('A3real[P1 %d%d%d,rule%d]' % (tuple(conn) + (d,)), spec_axr, cap=40, order=('core', 'nlsat'))
+            c.prove('A3real[P1 %d%d%d,rule%d]' % (tuple(conn) + (d,)), spec_axr, cap=80, order=('core', 'nlsat'))
 
 
 # ------------------------------------------------------------------------------------------ A4
@@ -453,7 +482,8 @@ def one_element_mesh(conn):
 
 
 def elevated(h):
-    return [(2, False)] + ([(3, False), (2, True), (3, True)] if h.thorough() else [])
+    # P3+bubble is in the quick set on purpose: 2 interior nodes per edge and 3 non-symmetric interior nodes (P2 / P2b / P3 are blind to node-order flips)
+    return [(2, False), (3, True)] + ([(3, False), (2, True)] if h.thorough() else [])
 
 
 @obligation(P, 'O6.A4_quadrature_points_and_coordinate_gradient', cap=280)
@@ -468,7 +498,7 @@ def o6(h):
               FS.compute_quadrature_point_field_gradient, FS.construct_function_space_from_parent_element, FS.map_element_shape_grads,
               M.create_higher_order_mesh_from_simplex_mesh, M.create_edges, I.compute_shapes)
     h.bounds('three vertex coordinates free in [-%g,%g]^2 (linear goals: every triangle in the box, degenerate ones included; gradient chain: det J >= %g), three cyclic '
-             'node orders; real tables: P1 with rules 1,2,4 (thorough: all six), elevated P2 (thorough: P3, P2+bubble, P3+bubble) with rule 2 (thorough: also rule 4); '
+             'node orders; real tables: P1 with rules 1,2,4 (thorough: all six), elevated P2, P3+bubble (thorough: also P3, P2+bubble) with rule 2 (thorough: also rule 4); '
              'tolerances %.3g (P1 points), %.3g (elevated points/nodes), %.3g (reference gradient of the coordinate map)' % (BOX, BOX, DET_MIN, TOL_X, TOL_XH, TOL_J))
     h.outside(*OUTSIDE)
     h.assume_note(COMPOSITION, 'linear solve encoded relationally (see O4)')
@@ -561,6 +591,38 @@ def o6(h):
                 return box(i['X']) + [v_le(DET_MIN, det)], [Eq(l, r, name='gradX_times_J_eq_sum_x_dN')]
             c.prove('A4grad[%s]' % lab, specg, cap=40)
 
+    # two elements sharing an edge (the right-hand element receives the shared edge nodes in reverse order): every node of
+    # BOTH elements is the affine image of its parent node under that element's own map, points stay affine
+    base2 = M.construct_mesh_from_basic_data(jnp.array([[0., 0.], [1., 0.], [1., 1.], [0., 1.]]), jnp.array(TWO_EL_CONNS), {'block': jnp.arange(2)})
+    for order, bubble in elevated(h):
+        ho = M.create_higher_order_mesh_from_simplex_mesh(base2, order, useBubbleElement=bubble)
+        econns = [[int(v) for v in row] for row in ho.conns]
+        pc = pyf(ho.parentElement.coordinates)
+        qr = QR.create_quadrature_rule_on_triangle(2)
+        xi = pyf(qr.xigauss)
+        sh = I.compute_shapes(ho.parentElement, qr.xigauss)
+
+        def fn2(X, order=order, bubble=bubble, sh=sh):
+            with jax.ensure_compile_time_eval():
+                m = M.create_higher_order_mesh_from_simplex_mesh(M.mesh_with_coords(base2, X), order, useBubbleElement=bubble)
+            return m.coords, [FS.interpolate_to_element_points(m.coords, sh.values, m.conns[e]) for e in range(2)]
+        smpq = quad_sampler()
+        c = Case(h, fn2, dict(X=smpq(onp.random.default_rng(16))[0]), sampler=smpq, label='elevate 2-element mesh %s' % elem_name(order, bubble))
+
+        def spec2(i, o, econns=econns, pc=pc, xi=xi):
+            XH, pts = o
+            nodes, points = [], []
+            for e, (v, J, det) in enumerate(two_el(i['X'])):
+                for a in range(len(pc)):
+                    p = affine_point(v, J, pc[a])
+                    nodes += [v_abs(v_sub(XH[econns[e][a]][0], p[0])), v_abs(v_sub(XH[econns[e][a]][1], p[1]))]
+                for q in range(len(xi)):
+                    p = affine_point(v, J, xi[q])
+                    points += [v_abs(v_sub(pts[e][q, 0], p[0])), v_abs(v_sub(pts[e][q, 1], p[1]))]
+            return box(i['X']), [Le(nodes, TOL_XH, name='elevated_nodes_are_affine_images_in_both_elements', scale=SC),
+                                 Le(points, TOL_XH, name='points_eq_v2_plus_J_xi', scale=SC)]
+        c.prove('A4two[%s]' % elem_name(order, bubble), spec2, cap=40)
+
 
 # ------------------------------------------------------------------------------------------ A5
 def edge_oracle(v, k):
@@ -647,7 +709,7 @@ def o7(h):
                 Ny.append(v_mul(n[1], j))
             atoms.append(Eq([v_sum(Nx), v_sum(Ny)], 0.0, name='sum_of_normal_times_jac_is_zero'))
             return box(i['X']) + [v_le(DET_MIN, det)], atoms
-        c.prove('A5tri[%s]' % label, spec, cap=30, denoms=False, order=('nlsat', 'core'))
+        c.prove('A5tri[%s]' % label, spec, cap=60, denoms=False, order=('nlsat', 'core'))
 
     # (c) the real edge integrator on a closed triangle boundary: exact identities with the exact 1-D table constants
     edges = jnp.array([[0, 0], [0, 1], [0, 2]])
@@ -759,14 +821,15 @@ def shoelace2(X, ids=(0, 1, 2, 3)):
 
 @obligation(P, 'O8.function_space_on_two_element_mesh', cap=280)
 def o8(h):
-    """construct_function_space_from_parent_element on a 2-element mesh with 8 free coordinates and the REAL P1 tables:
-    shapes are the reference table, shapeGrads = J_e^{-T} dN (Cramer), vols = det J_e w_q (x 2 pi r_q), the quadrature
+    """construct_function_space / construct_function_space_from_parent_element on a 2-element mesh with 8 free coordinates and the REAL P1 tables:
+    shapes are the reference table, J_e^T shapeGrads = dN (residual form of shapeGrads = J_e^{-T} dN), vols = det J_e w_q (x 2 pi r_q), the quadrature
     volumes sum to the polygon area (shoelace) / to 2 pi * area * centroid radius per element; compute_field_gradient
     of ANY nodal field with ANY reference gradients satisfies G J_e = sum_a u_a (x) dN_a; integrate_over_block of
-    1 and x (thorough: x*y) equals the closed-form polygon integrals"""
+    1, x and x*y equals the closed-form polygon integrals (x, x*y: exactly, through the exact first moments / mass matrix of the real tables,
+    which are ground facts)"""
     FS, I, QR, M, S = _mods()
-    h.encoded(FS.construct_function_space_from_parent_element, FS.map_element_shape_grads, FS.compute_element_volumes, FS.compute_element_volumes_axisymmetric,
-              FS.compute_field_gradient, FS.compute_element_field_gradient, FS.compute_quadrature_point_field_gradient, FS.integrate_over_block, FS.evaluate_on_block,
+    h.encoded(FS.construct_function_space, FS.construct_function_space_from_parent_element, FS.map_element_shape_grads, FS.compute_element_volumes,
+              FS.compute_element_volumes_axisymmetric, FS.compute_field_gradient, FS.compute_element_field_gradient, FS.compute_quadrature_point_field_gradient, FS.integrate_over_block, FS.evaluate_on_block,
               FS.evaluate_on_element, FS.interpolate_to_element_points, M.mesh_with_coords, M.construct_mesh_from_basic_data)
     h.bounds('4 nodes free in [-%g,%g]^2, elements %s both with det J >= %g; real P1 tables with triangle rule 2 (thorough: 1,2,4); nodal field and reference gradients '
              'of the gradient chain: all reals (1 quadrature point)' % (BOX, BOX, TWO_EL_CONNS, DET_MIN))
@@ -783,9 +846,9 @@ def o8(h):
         W = sum(F(x) for x in wq)
 
         def fc(X, sh=sh, qr=qr):
-            fs = FS.construct_function_space_from_parent_element(M.mesh_with_coords(base, X), sh, qr, 'cartesian')
+            fs = FS.construct_function_space(M.mesh_with_coords(base, X), qr)     # default mode: cartesian; computes the reference tables itself
             return fs.shapes, fs.vols, fs.shapeGrads
-        c = Case(h, fc, dict(X=ex[0]), sampler=smp, label='construct_function_space_from_parent_element cartesian rule%d' % d)
+        c = Case(h, fc, dict(X=ex[0]), sampler=smp, label='construct_function_space (cartesian) rule%d' % d)
 
         def spec_c(i, o, Nt=Nt, dNt=dNt, wq=wq, nq=nq, W=W):
             shapes, vols, grads = o
@@ -800,10 +863,12 @@ def o8(h):
                     for a in range(3):
                         sl.append(shapes[e, q, a])
                         sr.append(Nt[q][a])
-                        r0, r1 = cramer(J, dNt[q][a][0], dNt[q][a][1])
-                        gl += [v_mul(grads[e, q, a, 0], det), v_mul(grads[e, q, a, 1], det)]
-                        gr += [r0, r1]
-                gatoms.append(Eq(gl, gr, name='shapeGrads_times_detJ_eq_adjJT_dN[el%d]' % e))
+                        # residual form J^T g = dN with the ORACLE's J (equivalent to g = J^-T dN since det J >= 1/50; the Cramer form for all dN is O4):
+                        # robustly fast for the solver, a wrong wiring of coords/conn/tables into map_element_shape_grads gives a model at once
+                        gl += [v_add(v_mul(J[0][0], grads[e, q, a, 0]), v_mul(J[1][0], grads[e, q, a, 1])),
+                               v_add(v_mul(J[0][1], grads[e, q, a, 0]), v_mul(J[1][1], grads[e, q, a, 1]))]
+                        gr += [dNt[q][a][0], dNt[q][a][1]]
+                gatoms.append(Eq(gl, gr, name='JT_shapeGrads_eq_dN[el%d]' % e))
             area2 = shoelace2(X)
             return box(X) + [v_le(DET_MIN, els[0][2]), v_le(DET_MIN, els[1][2])], [
                 Eq(sl, sr, name='shapes_are_the_reference_table'),
@@ -811,7 +876,7 @@ def o8(h):
                 Eq(vl, vr, name='vols_eq_detJ_w'),
                 Eq(v_sum(vl), v_mul(W, area2), name='sum_vols_eq_W_times_twice_polygon_area'),
                 Le(v_abs(v_sub(v_sum(vl), v_mul(0.5, area2))), v_mul(TOL_W, area2), name='sum_vols_eq_polygon_area', scale=SC)]
-        c.prove('FS2[cartesian,rule%d]' % d, spec_c, cap=40)
+        c.prove('FS2[cartesian,rule%d]' % d, spec_c, cap=60)
 
         def fa(X, sh=sh, qr=qr):
             return FS.construct_function_space_from_parent_element(M.mesh_with_coords(base, X), sh, qr, 'axisymmetric').vols
@@ -838,8 +903,18 @@ def o8(h):
         # mesh integrals through the real integrate_over_block
         state = jnp.zeros((2, nq, 0))
         kernels = [('1', lambda u, gu, s, x, dt: 1.0), ('x', lambda u, gu, s, x, dt: x[0])]
-        if d >= 2 and h.thorough():
+        # exact first moments of the real tables: c_a = sum_q w_q N_a(xi_q); ideal value 1/6
+        ca = [sum(F(wq[q]) * F(Nt[q][a]) for q in range(nq)) for a in range(3)]
+        worst = max(abs(x - Fr(1, 6)) for x in ca)
+        ground(h, 'P1_first_moments[rule%d]' % d, worst <= Fr(TOL_W), 'max |sum_q w_q N_a - 1/6| = %.3g (allowed %.3g)' % (float(worst), TOL_W), dict(rule=d))
+        if d >= 2:
             kernels.append(('xy', lambda u, gu, s, x, dt: x[0] * x[1]))
+            # exact P1 "mass matrix" of the real tables: M_ab = sum_q w_q N_a(xi_q) N_b(xi_q); ideal value (1 + delta_ab)/24
+            Mab = [[sum(F(wq[q]) * F(Nt[q][a]) * F(Nt[q][b]) for q in range(nq)) for b in range(3)] for a in range(3)]
+            worst = max(abs(Mab[a][b] - Fr(2 if a == b else 1, 24)) for a in range(3) for b in range(3))
+            ground(h, 'P1_mass_matrix[rule%d]' % d, worst <= Fr(TOL_W), 'max |sum_q w_q N_a N_b - (1+delta_ab)/24| = %.3g (allowed %.3g)' % (float(worst), TOL_W), dict(rule=d))
+        else:
+            Mab = None
 
         def fi(X, sh=sh, qr=qr, kernels=kernels):
             fs = FS.construct_function_space_from_parent_element(M.mesh_with_coords(base, X), sh, qr)
@@ -847,7 +922,7 @@ def o8(h):
             return [FS.integrate_over_block(fs, U, state, 0.0, k, base.blocks['block']) for _, k in kernels]
         c = Case(h, fi, dict(X=ex[0]), sampler=smp, label='integrate_over_block rule%d' % d)
 
-        def spec_i(i, o, kernels=kernels):
+        def spec_i(i, o, kernels=kernels, Mab=Mab, ca=ca, W=W):
             X = i['X']
             els = two_el(X)
             dets = v_add(els[0][2], els[1][2])
@@ -857,12 +932,14 @@ def o8(h):
                 sy = v_sum([v[k][1] for k in range(3)])
                 sxy = v_sum([v_mul(v[k][0], v[k][1]) for k in range(3)])
                 exact['one'].append(v_mul(0.5, det))
-                exact['x'].append(v_mul(1.0 / 6.0, v_mul(det, sx)))
-                exact['xy'].append(v_mul(1.0 / 24.0, v_mul(det, v_add(sxy, v_mul(sx, sy)))))
+                exact['x'].append(v_mul(det, v_sum([v_mul(ca[a], v[a][0]) for a in range(3)])))
+                if Mab is not None:
+                    exact['xy'].append(v_mul(det, v_sum([v_mul(Mab[a][b], v_mul(v[a][0], v[b][1])) for a in range(3) for b in range(3)])))
             atoms = [Le(v_abs(v_sub(s0(o[0]), v_sum(exact['one']))), v_mul(TOL_W, dets), name='integral_of_1_eq_area', scale=SC),
-                     Le(v_abs(v_sub(s0(o[1]), v_sum(exact['x']))), v_mul(TOL_X, dets), name='integral_of_x_eq_area_times_centroid', scale=SC)]
+                     Eq(s0(o[0]), v_mul(W, dets), name='integral_of_1_eq_W_sum_detJ'),
+                     Eq(s0(o[1]), v_sum(exact['x']), name='integral_of_x_eq_sum_detJ_c.x_with_exact_table_first_moments')]
             if len(kernels) > 2:
-                atoms.append(Le(v_abs(v_sub(s0(o[2]), v_sum(exact['xy']))), v_mul(BOX * TOL_X, dets), name='integral_of_xy_exact', scale=SC))
+                atoms.append(Eq(s0(o[2]), v_sum(exact['xy']), name='integral_of_xy_eq_sum_detJ_x.M.y_with_exact_table_mass_matrix'))
             return box(X) + [v_le(DET_MIN, els[0][2]), v_le(DET_MIN, els[1][2])], atoms
         c.prove('FS2int[rule%d]' % d, spec_i, cap=60, order=('nlsat', 'core'))
 
@@ -891,6 +968,24 @@ def o8(h):
 
 
 # ------------------------------------------------------------------------------------------ Surface.py (P1 edge helpers)
+def closed_boundary_chain(h, name, W, conn):
+    """cut-lemma chain, last link: from the two lemmas proved on the code's terms (total = I_0+I_1+I_2 and
+    I_k = W c.(T_y,-T_x)_k) the flux of a constant field through the closed boundary vanishes; the definitions of total
+    and I_k are dropped (fresh reals), which only enlarges the set of models"""
+    import z3
+    X = sym_array('X', (3, 2))
+    cv = sym_array('c', (2,))
+    t = z3.Real('total')
+    Ik = [z3.Real('I_%d' % k) for k in range(3)]
+    v, J, det = geom(X, conn)
+    lem = [t == Ik[0] + Ik[1] + Ik[2]]
+    for k in range(3):
+        a, b, cc, T = edge_oracle(v, k)
+        lem.append(Ik[k] == toz(W) * (cv[0] * T[1] - cv[1] * T[0]))
+    h.prove(name, lem + box(X, cv), Eq(t, 0.0), inputs=dict(X=X, c=cv), concrete=None, cap=20,
+            note='chain: lemmas surface_integral_is_sum_of_edge_integrals and edge_flux_of_constant_eq_W_c.normal_times_jac[edge0..2] of the same case')
+
+
 @obligation(P, 'O9.A5_surface_module', cap=280)
 def o9(h):
     """A5 for optimism/Surface.py (hard-coded P1 triangles): compute_normal / compute_edge_vectors unit, orthogonal,
@@ -931,13 +1026,22 @@ def o9(h):
             ex = smpt(onp.random.default_rng(14))
 
             def ftot(X, cvec, mesh0=mesh0, qr1=qr1):
-                return S.integrate_function_on_surface(qr1, edges, M.mesh_with_coords(mesh0, X), lambda x, n: cvec @ n)
+                mesh = M.mesh_with_coords(mesh0, X)
+                func = lambda x, n: cvec @ n
+                return S.integrate_function_on_surface(qr1, edges, mesh, func), [S.integrate_function_on_edge(qr1, (0, k), mesh, func) for k in range(3)]
             c = Case(h, ftot, dict(X=ex[0], c=ex[1]), sampler=smpt, label='Surface.integrate_function_on_surface %s rule1d=%d' % (conn, d1))
 
-            def spec_tot(i, o, conn=conn):
+            def spec_tot(i, o, conn=conn, W=W):
+                total, Ik = o
+                cv = i['c']
                 v, J, det = geom(i['X'], conn)
-                return box(i['X'], i['c']) + [v_le(DET_MIN, det)], [Eq(s0(o), 0.0, name='flux_of_constant_field_through_closed_boundary_is_zero')]
-            c.prove('A5surf[%d%d%d,rule1d=%d]' % (tuple(conn) + (d1,)), spec_tot, cap=60, denoms=False, order=('nlsat', 'core'))
+                atoms = [Eq(s0(total), v_sum([s0(x) for x in Ik]), name='surface_integral_is_sum_of_edge_integrals')]
+                for k in range(3):
+                    a, b, cc, T = edge_oracle(v, k)
+                    atoms.append(Eq(s0(Ik[k]), v_mul(W, v_sub(v_mul(cv[0], T[1]), v_mul(cv[1], T[0]))), name='edge_flux_of_constant_eq_W_c.normal_times_jac[edge%d]' % k))
+                return box(i['X'], cv) + [v_le(DET_MIN, det)], atoms
+            c.prove('A5surf[%d%d%d,rule1d=%d]' % (tuple(conn) + (d1,)), spec_tot, cap=40, denoms=False, order=('nlsat', 'core'))
+            closed_boundary_chain(h, 'A5surf[%d%d%d,rule1d=%d].flux_of_constant_field_through_closed_boundary_is_zero' % (tuple(conn) + (d1,)), W, conn)
 
             for k in range(3):
                 def fk(X, mesh0=mesh0, qr1=qr1, k=k):
